@@ -93,6 +93,30 @@ pub fn replay_line(st: &mut Stats, prop: &str, line: &Value) {
         };
         let cl = l.cluster().map(|c| (c.lhs() as u64, c.rhs() as u64, c.distance(), c.len() as u64)).collect::<Vec<_>>();
         let idx: Vec<u64> = l.indicies().into_iter().map(|x| x as u64).collect();
+        // the other views of the same dendrogram: exact size, back to front, `for c in &linkage`, mixed ends
+        let tup = |c: &hpo::stats::cluster::Cluster| (c.lhs() as u64, c.rhs() as u64, c.distance(), c.len() as u64);
+        let mut views_ok = l.cluster().len() == cl.len();
+        let mut back: Vec<_> = l.cluster().rev().map(tup).collect();
+        back.reverse();
+        views_ok &= back == cl;
+        views_ok &= (&l).into_iter().map(tup).collect::<Vec<_>>() == cl;
+        let mut it = l.cluster();
+        let (mut front, mut tail) = (vec![], vec![]);
+        let mut turn = 0;
+        loop {
+            turn += 1;
+            let x = if turn % 3 == 0 { it.next_back().map(|c| tail.push(tup(c))) } else { it.next().map(|c| front.push(tup(c))) };
+            if x.is_none() || turn > 10_000 {
+                break;
+            }
+            views_ok &= it.len() + front.len() + tail.len() == cl.len();
+        }
+        tail.reverse();
+        front.extend(tail);
+        views_ok &= front == cl;
+        if !views_ok {
+            panic!("the views of the dendrogram disagree: cluster() {:?}, reversed {:?}, mixed ends {:?}", cl, back, front);
+        }
         let into: Vec<(u64, u64, f32, u64)> = l.into_cluster().map(|c| (c.lhs() as u64, c.rhs() as u64, c.distance(), c.len() as u64)).collect();
         (cl, idx, into)
     });
